@@ -22,12 +22,22 @@ const DICT: [&[u8]; 24] = [
     b"\"v1\"", b"W/\"v1\"", b"*", b"\"", b"W/", b"Thu, 29 Feb 2024 00:00:00 GMT", b"Thursday, 29-Feb-24 00:00:00 GMT", b"Thu Feb 29 00:00:00 2024", b" GMT", b"\"a, b\"", b"=", b"items=", b"\t",
 ];
 
+fn take_u64(it: &mut impl Iterator<Item = u8>) -> Option<u64> {
+    let mut v = 0u64;
+    for i in 0..8 {
+        v |= (it.next()? as u64) << (8 * i);
+    }
+    Some(v)
+}
+
 pub fn decode_serve(data: &[u8]) -> Option<ServeCase> {
     let mut it = data.iter().copied();
     let m = it.next()?;
     let e = it.next()?;
     let nh = it.next()? % 6;
-    let len = [0u64, 1, 10, 240, 1000, 1 << 32, 1 << 63, u64::MAX][(e % 8) as usize];
+    // entity length: from a table, or (selector 7) any u64 taken from the input in binary, so that
+    // the fuzzer's comparison tracing can steer it towards constants the code compares against
+    let len = if e % 8 == 7 { take_u64(&mut it)? } else { [0u64, 1, 10, 240, 1000, 1 << 32, 1 << 63][(e % 8) as usize] };
     let mut ent = EntSpec { len, ..Default::default() };
     if e & 8 != 0 {
         ent.etag = Some(if e & 16 != 0 { b"W/\"v1\"".to_vec() } else { b"\"v1\"".to_vec() });
@@ -41,21 +51,46 @@ pub fn decode_serve(data: &[u8]) -> Option<ServeCase> {
     let mut c = ServeCase::get(ent);
     c.cap = 1 << 12;
     c.method = if m < 128 { "GET".into() } else { C13_METHODS[(m as usize) % C13_METHODS.len()].to_string() };
+    if m & 64 != 0 {
+        c.ent.hdrs.push(("x-meta".into(), vec![b'm'; 200]));
+    }
     for _ in 0..nh {
         let name = C13_HEADERS[(it.next()? as usize) % C13_HEADERS.len()];
-        let n = (it.next()? % 48) as usize;
+        let n = it.next()?;
         let mut v = Vec::new();
-        let mut k = 0;
-        while k < n {
-            let b = match it.next() {
-                Some(b) => b,
-                None => break,
-            };
-            k += 1;
-            if b < 24 {
-                v.extend_from_slice(DICT[b as usize]);
-            } else {
-                v.push(legal(b));
+        if name == "range" && n >= 200 {
+            // structured: 1..4 specs with binary positions, rendered as decimal text
+            let k = (n - 200) % 4 + 1;
+            v.extend_from_slice(b"bytes=");
+            for i in 0..k {
+                if i > 0 {
+                    v.extend_from_slice(b", ");
+                }
+                let kind = it.next()? % 3;
+                let a = take_u64(&mut it)?;
+                match kind {
+                    0 => {
+                        let b = take_u64(&mut it)?;
+                        v.extend_from_slice(format!("{}-{}", a, b).as_bytes());
+                    }
+                    1 => v.extend_from_slice(format!("{}-", a).as_bytes()),
+                    _ => v.extend_from_slice(format!("-{}", a).as_bytes()),
+                }
+            }
+        } else {
+            let n = (n % 48) as usize;
+            let mut k = 0;
+            while k < n {
+                let b = match it.next() {
+                    Some(b) => b,
+                    None => break,
+                };
+                k += 1;
+                if b < 24 {
+                    v.extend_from_slice(DICT[b as usize]);
+                } else {
+                    v.push(legal(b));
+                }
             }
         }
         c.hdrs.push((name.to_string(), v));
@@ -75,10 +110,25 @@ pub fn fuzz_serve(data: &[u8]) -> Option<String> {
     static HOOK: std::sync::Once = std::sync::Once::new();
     HOOK.call_once(crate::util::install_quiet_panic_hook);
     let c = decode_serve(data)?;
+    // which property's oracle judges (the ./check leg sets it; default C13)
+    static PROP: std::sync::OnceLock<String> = std::sync::OnceLock::new();
+    let prop = PROP.get_or_init(|| std::env::var("HSV_FUZZ_PROP").unwrap_or_else(|_| "C13".into()));
+    if prop == "C03" && c.hdrs.iter().any(|(k, _)| k != "range") {
+        return None; // C03 speaks about requests carrying only a Range header
+    }
     let o = run_serve(&c)?;
-    with_sink(|sink| match c13_judge(&c, &o, sink).0 {
-        Verdict::Violation { sig, msg } => Some(format!("{}: {}", sig, msg)),
-        _ => None,
+    with_sink(|sink| {
+        let v = match prop.as_str() {
+            "C01" => crate::p_serve::c01_judge(&c, &o, sink).0,
+            "C02" => crate::p_serve::c02_judge(&c, &o, sink).0,
+            "C03" => crate::p_serve::c03_judge(&c, &o, sink).0,
+            "C06" => crate::p_serve::c06_judge(&c, &o, sink).0,
+            _ => c13_judge(&c, &o, sink).0,
+        };
+        match v {
+            Verdict::Violation { sig, msg } => Some(format!("{}: {}", sig, msg)),
+            _ => None,
+        }
     })
 }
 
